@@ -174,7 +174,7 @@ def clamped_interp(x, xs, ys):
             out.flat[i] = ys[-1]
         else:
             j = bisect.bisect_right(xs, v) - 1
-            out.flat[i] = ys[j] + (v - xs[j]) * (ys[j + 1] - ys[j]) / (xs[j + 1] - xs[j])
+            out.flat[i] = ys[j] + ((ys[j + 1] - ys[j]) / (xs[j + 1] - xs[j])) * (v - xs[j])
     return out
 
 
